@@ -51,6 +51,7 @@ class TreeDriver:
         self.model = MNode('m', self.root)
         self.nuid = 0
         self.flags = set()
+        self.ever = set()           # every path that was ever present
 
     # ---- values
     def new_handle(self):
@@ -117,6 +118,19 @@ class TreeDriver:
             self.flags.add('deep-key')
         self.root[key] = real
         return real
+
+    def reassign(self, key):
+        """Assign the object already stored under ``key`` to ``key`` again
+        (same map, same name): nothing may change."""
+        node = self.find(key)
+        if node is None:
+            return False
+        real = self.root.get(key)
+        if real is None:
+            return False
+        self.root[key] = real
+        self.flags.add('reassign-same')
+        return True
 
     def layer_set(self, key):
         """What DirectoryResourcePopulator does on a conflict: a new first
@@ -255,15 +269,27 @@ def sweep(drv, at, extra_absent=()):
     # absent / too-long paths: get's default <=> [] raises KeyError
     absent = set(extra_absent)
 
+    top = list(drv.model.children)
+
     def collect(node, names):
         for name, child in node.children.items():
             p = '/'.join(names + [name])
+            drv.ever.add(p)
             absent.add(p + '/zz')
             absent.add(p + 'zz')
+            # a path whose middle cannot be walked but whose last component
+            # names something that exists elsewhere
+            for other in top[:3]:
+                absent.add('zz/' + other)
+                absent.add(p + '/zz/' + other)
+                if child.kind == 'h':
+                    absent.add(p + '/' + other)
             if child.kind == 'm':
                 collect(child, names + [name])
     collect(drv.model, [])
     absent |= {'zz', 'zz/a', ''}
+    # paths that used to exist must be gone for every access form
+    absent |= drv.ever
     for p in sorted(absent):
         node = drv.find(p)
         if node is not None:
